@@ -75,6 +75,8 @@ type FT struct {
 	afterLock *State
 	dynSelf   *SpecVal
 	nonFresh  map[string]bool
+	curGuard  Term
+	unwinding bool
 }
 
 func (ft *FT) note(s string) { ft.notes[s] = true }
@@ -711,6 +713,9 @@ func (ft *FT) privateAlloc(a *ssa.Alloc) bool {
 					return false
 				}
 			case *ssa.DebugRef:
+			case *ssa.MakeClosure:
+				// captured by a closure of this very function: still invisible to any other code
+				// (calls of that closure re-havoc the cell if the closure assigns it)
 			case *ssa.FieldAddr:
 				if x.X != v || x.Referrers() == nil || !ok(x, *x.Referrers()) {
 					return false
@@ -745,6 +750,14 @@ func (ft *FT) run() {
 	ft.entry = &State{m: map[string]Term{}, epoch: 0}
 	st0 := ft.entry.clone()
 	ft.assume("true", app("<", "0", ft.get(st0, "$next")))
+	// no deferred call is registered at entry
+	for _, b := range fn.Blocks {
+		for _, ins := range b.Instrs {
+			if d, ok := ins.(*ssa.Defer); ok {
+				ft.set(st0, ft.deferKey(d), "false")
+			}
+		}
+	}
 	// parameters and free variables
 	for _, p := range fn.Params {
 		name := "p!" + p.Name()
@@ -865,11 +878,13 @@ func (ft *FT) block(b *ssa.BasicBlock, st0 *State) {
 		}
 	}
 	ft.guard[b] = guard
+	ft.curGuard = guard
 	for _, ins := range b.Instrs {
 		if _, ok := ins.(*ssa.Phi); ok {
 			continue
 		}
-		ft.instr(ins, st, guard)
+		// curGuard shrinks after a call that may panic: the rest of the block runs only if it returned
+		ft.instr(ins, st, ft.curGuard)
 	}
 	ft.out[b] = st
 	// back edges: invariant preservation
